@@ -155,7 +155,7 @@ func checkC11(c *Ctx) {
 			}
 			for _, e := range successExits(fl, 0) {
 				facts := e.Facts
-				hit := trueOf(facts, func(k string) bool { return strings.HasPrefix(k, "(*hs/security/cert.Cache).check(") })
+				hit := trueOf(facts, func(k string) bool { return strings.HasPrefix(k, callKeyPrefix(p, check)) })
 				if !hit && !errNilOf(facts, is(dk)) && !(e.Via == deleg) {
 					bad = append(bad, "accepting exit at "+p.Pos(e.Ret.Pos())+" is neither a cache hit nor a delegate success")
 				}
@@ -240,13 +240,15 @@ func checkC11(c *Ctx) {
 	{
 		fl := NewFlow(p, insert)
 		ok := false
-		eachInstr(insert, func(in ssa.Instruction) {
-			if mu, isMU := in.(*ssa.MapUpdate); isMU && fl.K.Key(mu.Map) == "p0->hs/security/cert.Cache.entries" {
-				if fl.K.Key(mu.Key) == "p1" && strings.HasPrefix(fl.K.Key(mu.Value), "(*container/list.List).PushFront(&p0->hs/security/cert.Cache.accessOrder, p1)") {
+		// (in insert or in a private helper of the package it delegates to; keys in insert's terms)
+		for _, d := range deepInstrs(fl, func(in ssa.Instruction) bool { _, isMU := in.(*ssa.MapUpdate); return isMU }, 0) {
+			mu := d.Instr.(*ssa.MapUpdate)
+			if d.Key(mu.Map) == "p0->hs/security/cert.Cache.entries" {
+				if d.Key(mu.Key) == "p1" && strings.HasPrefix(d.Key(mu.Value), "(*container/list.List).PushFront(&p0->hs/security/cert.Cache.accessOrder, p1)") {
 					ok = true
 				}
 			}
-		})
+		}
 		c.Check(ok, "C11.5", "insert: entries[key] = accessOrder.PushFront(key)", p.FuncPos(insert), "a new key enters both structures together", "insert does not add the same key to both structures")
 	}
 }
@@ -386,7 +388,7 @@ func c11DelegateThroughHelper(c *Ctx, fl *Flow, delegName string, check, insert 
 		}
 	}
 	for _, e := range successExits(hfl, 0) {
-		hit := trueOf(e.Facts, func(k string) bool { return strings.HasPrefix(k, "(*hs/security/cert.Cache).check(") })
+		hit := trueOf(e.Facts, func(k string) bool { return strings.HasPrefix(k, callKeyPrefix(p, check)) })
 		if !hit && !errNilOf(e.Facts, is(dk)) && !(e.Via == dcalls[0]) {
 			bad = append(bad, "accepting exit at "+p.Pos(e.Ret.Pos())+" is neither a cache hit nor a delegate success")
 		}
